@@ -287,7 +287,7 @@ pub fn family(name: &str) -> Family {
     }
 }
 
-pub struct PriceModel { pub tick: u32, pub centre: u32, pub wide: bool }
+pub struct PriceModel { pub tick: u32, pub centre: u32, pub wide: bool, pub mirror: bool, pub narrow: bool }
 impl PriceModel {
     pub fn new(rng: &mut Sm, tick: u32, wide: bool) -> Self {
         let max_k = (u32::MAX - 1) / tick; // largest k with k*tick < MAX
@@ -298,15 +298,18 @@ impl PriceModel {
                 _ => 8 + (rng.next() % (max_k as u64 - 16)) as u32,  // anywhere
             }
         };
-        PriceModel { tick, centre: centre_k, wide }
+        PriceModel { tick, centre: centre_k, wide, mirror: false, narrow: false }
     }
     /// a valid grid price: 0 < p < MAX
     pub fn price(&self, rng: &mut Sm) -> u32 {
         let max_k = (u32::MAX - 1) / self.tick;
-        let spread = if rng.chance(1, 8) { 30 } else { 4 };
+        let spread = if self.narrow { 1 } else if rng.chance(1, 8) { 30 } else { 4 };
         let lo = self.centre.saturating_sub(spread).max(1);
         let hi = self.centre.saturating_add(spread).min(max_k);
         let k = lo + rng.below((hi - lo + 1) as u64) as u32;
+        // mirror mode (tick divides 2^32-1): every third price is reflected about the middle of the u32 range,
+        // so that a price p and the price u32::MAX - p both occur in one history
+        if self.mirror && rng.chance(1, 3) { return u32::MAX - k * self.tick; }
         k * self.tick
     }
 }
@@ -315,12 +318,27 @@ fn vol(rng: &mut Sm, wide: bool) -> u32 {
     if wide && rng.chance(1, 6) { 1 + rng.below(1 << 20) as u32 } else { 1 + rng.below(6) as u32 }
 }
 
+/// volumes around 2^31 and close to 2^32 (differences that do not fit a signed 32-bit value)
+fn huge_vol(rng: &mut Sm) -> u32 {
+    let r = rng.below(3) as u32;
+    *rng.pick(&[(1u32 << 31) - 1 - r, (1u32 << 31) + r, 3_000_000_000 + r, u32::MAX - 2 - r])
+}
+
 /// One seeded random history of `len` operations followed by the drain probe.
 pub fn random_script<W: Write, const L: usize>(em: &mut Emitter<W>, id: u64, rng: &mut Sm, fam: &Family, len: usize) {
-    let tick = 1 + rng.below(10) as u32;
+    let mut tick = 1 + rng.below(10) as u32;
+    // extreme mode (decided first: it may restrict the tick to a divisor of 2^32-1 so that mirrored prices are on the grid)
+    let extreme = rng.chance(1, 4);
+    if extreme && rng.chance(1, 2) { tick = *rng.pick(&[1u32, 3, 5]); }
     let wide_p = fam.wide || rng.chance(1, 3);
     let pm = PriceModel::new(rng, tick, wide_p);
     let wide_vol = rng.chance(1, 3);
+    // extreme mode: a few orders with volumes around 2^31 / near 2^32, and (when the tick divides 2^32-1) prices
+    // reflected about the middle of the u32 range
+    let mut pm = pm;
+    if extreme && (u32::MAX % tick == 0) { pm.mirror = true; pm.narrow = rng.chance(1, 2); }
+    // in extreme mode most limit orders go to one side (deep one-sided books)
+    let side_bias: Option<bool> = if extreme && rng.chance(1, 2) { Some(rng.chance(1, 2)) } else { None };
     let t0 = if rng.chance(1, 10) { rng.next() >> 8 } else { rng.below(1000) };
     let trading0 = !(fam.toggles && rng.chance(1, 5));
     let h = Header { t0, tick, trading: trading0 };
@@ -347,9 +365,10 @@ pub fn random_script<W: Write, const L: usize>(em: &mut Emitter<W>, id: u64, rng
         let ev = fam.events && rng.chance(1, 4);
         if roll < 38 {
             // aggressive or passive limit order
-            let bid = rng.chance(1, 2);
+            let bid = match side_bias { Some(b) if rng.chance(4, 5) => b, _ => rng.chance(1, 2) };
             let p = pm.price(rng);
-            run.op(&Op::CreatePlace { bid, vol: vol(rng, wide_vol), trader: rng.below(5) as u32, price: Some(p) });
+            let v = if extreme && rng.chance(1, 8) { huge_vol(rng) } else { vol(rng, wide_vol) };
+            run.op(&Op::CreatePlace { bid, vol: v, trader: rng.below(5) as u32, price: Some(p) });
         } else if roll < 46 {
             run.op(&Op::CreatePlace { bid: rng.chance(1, 2), vol: vol(rng, wide_vol), trader: rng.below(5) as u32, price: None });
         } else if roll < 52 {
@@ -365,7 +384,8 @@ pub fn random_script<W: Write, const L: usize>(em: &mut Emitter<W>, id: u64, rng
             if let Some(i) = pick_id(rng, &run, want) {
                 let cur = run.book.order(i).vol;
                 let p = match rng.below(3) { 0 => None, _ => Some(if fam.offgrid && rng.chance(1, 3) { pm.price(rng).wrapping_add(1 + rng.below(tick.max(2) as u64 - 1) as u32) } else { pm.price(rng) }) };
-                let v = match rng.below(5) { 0 => None, 1 => Some(cur.saturating_sub(1 + rng.below(3) as u32).max(1)), 2 => Some(cur.max(1)), 3 => Some(cur.saturating_add(1 + rng.below(4) as u32)), _ => Some(vol(rng, wide_vol)) };
+                let v = if extreme && rng.chance(1, 3) { Some(if rng.chance(1, 2) { 1 + rng.below(10) as u32 } else { huge_vol(rng) }) } else {
+                    match rng.below(5) { 0 => None, 1 => Some(cur.saturating_sub(1 + rng.below(3) as u32).max(1)), 2 => Some(cur.max(1)), 3 => Some(cur.saturating_add(1 + rng.below(4) as u32)), _ => Some(vol(rng, wide_vol)) } };
                 run.op(&if ev { Op::EvModify(i, p, v) } else { Op::Modify(i, p, v) });
             }
         } else if roll < 90 && fam.toggles {
